@@ -668,6 +668,11 @@ def oracle(line, out):
     else:
         resp = data
     ref = ref_backend(resp, be)
+    if ref["kind"] == "msg" and (head_req or ref["status"] == 304):
+        # RFC 9112 6.3: a response to HEAD and a 304 end with the head, whatever Content-Length / Transfer-Encoding
+        # announce: the backend message is complete, however the stream ends afterwards
+        ref = dict(ref, framing="none", complete=True, badframing=False, trailers=[],
+                   excess=len(ref.get("body") or b"") + ref.get("excess", 0), body=b"")
     good = ref["kind"] == "msg" and not ref["badframing"]
     # ---- what the client saw
     if ver == 20:
@@ -717,6 +722,8 @@ def oracle(line, out):
                 broken = not ref["complete"]
             elif ref["framing"] == "chunked":
                 broken = not ref["complete"]
+            elif ref["framing"] == "none":
+                broken = False                # bodiless: complete with its head
             else:
                 broken = (not ended) if be == "fcgi" else (not clean)
     elif ref["kind"] == "badhead":
@@ -1007,6 +1014,37 @@ def gen_special(ctx):
                 lines.append(line(be, ver, ctx.rng.choice([0, 1, 2]), "G", "eof", [data]))
         data = b"Status: 200\r\nx-lighttpd-kbytes-per-second: " + v + b"\r\n\r\nok"
         lines.append(line("fcgi", 11, 1, "G", "eof", [fcgi_rec(6, data) + fcgi_rec(6, b"") + fcgi_rec(3, b"\0" * 8)]))
+    return lines
+
+
+def gen_bodiless(ctx):
+    """responses that end with their head although they announce a body: answers to HEAD, 304 (with
+    Content-Length / Transfer-Encoding / neither), 204, each also behind a 1xx; every end kind x protocol x mode.
+    A complete bodiless response is relayed as such (never 5xx), however the backend stream ends afterwards."""
+    rng = ctx.rng
+    lines = []
+    for be in BES:
+        for meth, status in (("H", 200), ("H", 404), ("G", 304), ("H", 304), ("G", 204)):
+            for fr in (b"Content-Length: 5\r\n", b"Transfer-Encoding: chunked\r\n", b""):
+                if status == 204 and fr:
+                    continue
+                for pre in (b"", b"103"):
+                    if be == "proxy":
+                        head = (b"HTTP/1.1 103 Early Hints\r\nLink: </a>\r\n\r\n" if pre else b"") + \
+                            b"HTTP/1.1 %d X\r\nETag: \"e\"\r\n" % status + fr + b"\r\n"
+                    else:
+                        head = (b"Status: 103\r\nLink: </a>\r\n\r\n" if pre else b"") + \
+                            b"Status: %d\r\nETag: \"e\"\r\n" % status + fr + b"\r\n"
+                    for end in ("eof", "rst", "err", "hup", "none"):
+                        for ver in (11, 10, 20):
+                            for stream in (0, 1, 2):
+                                segs = [head] if rng.random() < 0.6 else rand_split(rng, head, 2)
+                                if be == "fcgi":
+                                    done = end in ("eof", "none") or rng.random() < 0.5
+                                    segs = [fcgi_rec(6, x, rng.choice([0, 5])) for x in segs]
+                                    if done:
+                                        segs.append(fcgi_rec(6, b"") + fcgi_rec(3, b"\0" * 8))
+                                lines.append(line(be, ver, stream, meth, end, segs))
     return lines
 
 
@@ -1604,7 +1642,7 @@ def run(ctx):
         return
     rl = gen_relay(ctx)
     ex = gen_exhaustive(ctx)
-    big = gen_big(ctx) + gen_special(ctx)
+    big = gen_big(ctx) + gen_special(ctx) + gen_bodiless(ctx)
     ctx.dist["relay:random"] = len(rl)
     ctx.dist["relay:exhaustive-splits-and-cuts"] = len(ex)
     ctx.dist["relay:large-bodies"] = len(big)
